@@ -19,6 +19,7 @@ contract(
         type(result) is cls and is_fresh(result) and result.callable.func is call_funcs.equal_to
         and same(result.callable.args, tuple(())) and same(result.callable.kwargs, dict({"value": value})),
     serves=["C09", "C11", "C14"],
+    inline_at_calls=True,
 )
 
 contract(
@@ -29,6 +30,7 @@ contract(
         type(result) is cls and is_fresh(result) and result.callable.func is call_funcs.not_equal_to
         and same(result.callable.args, tuple(())) and same(result.callable.kwargs, dict({"value": value})),
     serves=["C09", "C11", "C14"],
+    inline_at_calls=True,
 )
 
 contract(
@@ -39,6 +41,7 @@ contract(
         type(result) is cls and is_fresh(result) and result.callable.func is call_funcs.less_than
         and same(result.callable.args, tuple(())) and same(result.callable.kwargs, dict({"value": value})),
     serves=["C09", "C11", "C14"],
+    inline_at_calls=True,
 )
 
 contract(
@@ -49,6 +52,7 @@ contract(
         type(result) is cls and is_fresh(result) and result.callable.func is call_funcs.greater_than
         and same(result.callable.args, tuple(())) and same(result.callable.kwargs, dict({"value": value})),
     serves=["C09", "C11", "C14"],
+    inline_at_calls=True,
 )
 
 contract(
@@ -59,6 +63,7 @@ contract(
         type(result) is cls and is_fresh(result) and result.callable.func is call_funcs.less_than_or_equal_to
         and same(result.callable.args, tuple(())) and same(result.callable.kwargs, dict({"value": value})),
     serves=["C09", "C11", "C14"],
+    inline_at_calls=True,
 )
 
 contract(
@@ -69,6 +74,7 @@ contract(
         type(result) is cls and is_fresh(result) and result.callable.func is call_funcs.greater_than_or_equal_to
         and same(result.callable.args, tuple(())) and same(result.callable.kwargs, dict({"value": value})),
     serves=["C09", "C11", "C14"],
+    inline_at_calls=True,
 )
 
 contract(
@@ -79,6 +85,7 @@ contract(
         type(result) is cls and is_fresh(result) and result.callable.func is call_funcs.in_
         and same(result.callable.args, tuple(())) and same(result.callable.kwargs, dict({"value": value})),
     serves=["C09", "C11", "C14"],
+    inline_at_calls=True,
 )
 
 contract(
@@ -89,6 +96,7 @@ contract(
         type(result) is cls and is_fresh(result) and result.callable.func is call_funcs.not_in
         and same(result.callable.args, tuple(())) and same(result.callable.kwargs, dict({"value": value})),
     serves=["C09", "C11", "C14"],
+    inline_at_calls=True,
 )
 
 contract(
@@ -99,6 +107,7 @@ contract(
         type(result) is cls and is_fresh(result) and result.callable.func is call_funcs.in_range
         and same(result.callable.args, tuple(())) and same(result.callable.kwargs, dict({"lower": lower, "upper": upper})),
     serves=["C09", "C11", "C14"],
+    inline_at_calls=True,
 )
 
 contract(
@@ -109,6 +118,7 @@ contract(
         type(result) is cls and is_fresh(result) and result.callable.func is call_funcs.not_in_range
         and same(result.callable.args, tuple(())) and same(result.callable.kwargs, dict({"lower": lower, "upper": upper})),
     serves=["C09", "C11", "C14"],
+    inline_at_calls=True,
 )
 
 contract(
@@ -119,6 +129,7 @@ contract(
         type(result) is cls and is_fresh(result) and result.callable.func is call_funcs.equal_to_approx
         and same(result.callable.args, tuple(())) and same(result.callable.kwargs, dict({"value": value, "tolerance": tolerance})),
     serves=["C09", "C11", "C14"],
+    inline_at_calls=True,
 )
 
 contract(
@@ -129,6 +140,7 @@ contract(
         type(result) is cls and is_fresh(result) and result.callable.func is call_funcs.factor_of
         and same(result.callable.args, tuple(())) and same(result.callable.kwargs, dict({"value": value})),
     serves=["C09", "C11", "C14"],
+    inline_at_calls=True,
 )
 
 contract(
@@ -139,6 +151,7 @@ contract(
         type(result) is cls and is_fresh(result) and result.callable.func is call_funcs.has_factor
         and same(result.callable.args, tuple(())) and same(result.callable.kwargs, dict({"value": value})),
     serves=["C09", "C11", "C14"],
+    inline_at_calls=True,
 )
 
 contract(
@@ -149,6 +162,7 @@ contract(
         type(result) is cls and is_fresh(result) and result.callable.func is call_funcs.truthy
         and same(result.callable.args, tuple(())) and same(result.callable.kwargs, dict({})),
     serves=["C09", "C11", "C14"],
+    inline_at_calls=True,
 )
 
 contract(
@@ -159,6 +173,7 @@ contract(
         type(result) is cls and is_fresh(result) and result.callable.func is call_funcs.falsy
         and same(result.callable.args, tuple(())) and same(result.callable.kwargs, dict({})),
     serves=["C09", "C11", "C14"],
+    inline_at_calls=True,
 )
 
 contract(
@@ -169,6 +184,7 @@ contract(
         type(result) is cls and is_fresh(result) and result.callable.func is call_funcs.null
         and same(result.callable.args, tuple(())) and same(result.callable.kwargs, dict({})),
     serves=["C09", "C11", "C14"],
+    inline_at_calls=True,
 )
 
 contract(
@@ -179,6 +195,7 @@ contract(
         type(result) is cls and is_fresh(result) and result.callable.func is call_funcs.is_instance
         and same(result.callable.args, tuple(classes)) and same(result.callable.kwargs, dict({})),
     serves=["C09", "C11", "C14"],
+    inline_at_calls=True,
 )
 
 contract(
@@ -189,6 +206,7 @@ contract(
         type(result) is cls and is_fresh(result) and result.callable.func is call_funcs.keys_contain
         and same(result.callable.args, tuple(())) and same(result.callable.kwargs, dict({"key": key})),
     serves=["C09", "C11", "C14"],
+    inline_at_calls=True,
 )
 
 contract(
@@ -199,6 +217,7 @@ contract(
         type(result) is cls and is_fresh(result) and result.callable.func is call_funcs.keys_contain_any_of
         and same(result.callable.args, tuple(keys)) and same(result.callable.kwargs, dict({})),
     serves=["C09", "C11", "C14"],
+    inline_at_calls=True,
 )
 
 contract(
@@ -209,6 +228,7 @@ contract(
         type(result) is cls and is_fresh(result) and result.callable.func is call_funcs.keys_contain_all_of
         and same(result.callable.args, tuple(keys)) and same(result.callable.kwargs, dict({})),
     serves=["C09", "C11", "C14"],
+    inline_at_calls=True,
 )
 
 contract(
@@ -219,6 +239,7 @@ contract(
         type(result) is cls and is_fresh(result) and result.callable.func is call_funcs.keys_contain_N_of
         and same(result.callable.args, tuple(())) and same(result.callable.kwargs, dict({"N": N, "keys": keys})),
     serves=["C09", "C11", "C14"],
+    inline_at_calls=True,
 )
 
 contract(
@@ -229,6 +250,7 @@ contract(
         type(result) is cls and is_fresh(result) and result.callable.func is call_funcs.keys_contain_at_least_N_of
         and same(result.callable.args, tuple(())) and same(result.callable.kwargs, dict({"N": N, "keys": keys})),
     serves=["C09", "C11", "C14"],
+    inline_at_calls=True,
 )
 
 contract(
@@ -239,6 +261,7 @@ contract(
         type(result) is cls and is_fresh(result) and result.callable.func is call_funcs.keys_contain_at_most_N_of
         and same(result.callable.args, tuple(())) and same(result.callable.kwargs, dict({"N": N, "keys": keys})),
     serves=["C09", "C11", "C14"],
+    inline_at_calls=True,
 )
 
 contract(
@@ -249,6 +272,7 @@ contract(
         type(result) is cls and is_fresh(result) and result.callable.func is call_funcs.keys_contain_one_of
         and same(result.callable.args, tuple(keys)) and same(result.callable.kwargs, dict({})),
     serves=["C09", "C11", "C14"],
+    inline_at_calls=True,
 )
 
 contract(
@@ -259,6 +283,7 @@ contract(
         type(result) is cls and is_fresh(result) and result.callable.func is call_funcs.keys_contain_at_least_one_of
         and same(result.callable.args, tuple(())) and same(result.callable.kwargs, dict({"keys": keys})),
     serves=["C09", "C11", "C14"],
+    inline_at_calls=True,
 )
 
 contract(
@@ -269,6 +294,7 @@ contract(
         type(result) is cls and is_fresh(result) and result.callable.func is call_funcs.keys_contain_at_most_one_of
         and same(result.callable.args, tuple(())) and same(result.callable.kwargs, dict({"keys": keys})),
     serves=["C09", "C11", "C14"],
+    inline_at_calls=True,
 )
 
 contract(
@@ -279,6 +305,7 @@ contract(
         type(result) is cls and is_fresh(result) and result.callable.func is call_funcs.keys_equal_to
         and same(result.callable.args, tuple(keys)) and same(result.callable.kwargs, dict({})),
     serves=["C09", "C11", "C14"],
+    inline_at_calls=True,
 )
 
 contract(
@@ -289,6 +316,7 @@ contract(
         type(result) is cls and is_fresh(result) and result.callable.func is call_funcs.keys_is_instance
         and same(result.callable.args, tuple(classes)) and same(result.callable.kwargs, dict({})),
     serves=["C09", "C11", "C14"],
+    inline_at_calls=True,
 )
 
 contract(
@@ -299,6 +327,7 @@ contract(
         type(result) is cls and is_fresh(result) and result.callable.func is call_funcs.items_contain
         and same(result.callable.args, tuple(())) and same(result.callable.kwargs, dict(items)),
     serves=["C09", "C11", "C14"],
+    inline_at_calls=True,
 )
 
 contract(
@@ -309,6 +338,7 @@ contract(
         type(result) is cls and is_fresh(result) and result.callable.func is call_funcs.allowed_keys
         and same(result.callable.args, tuple(keys)) and same(result.callable.kwargs, dict({})),
     serves=["C09", "C11", "C14"],
+    inline_at_calls=True,
 )
 
 contract(
@@ -319,6 +349,7 @@ contract(
         type(result) is cls and is_fresh(result) and result.callable.func is call_funcs.required_keys
         and same(result.callable.args, tuple(keys)) and same(result.callable.kwargs, dict({})),
     serves=["C09", "C11", "C14"],
+    inline_at_calls=True,
 )
 
 contract(
@@ -329,6 +360,7 @@ contract(
         type(result) is cls and is_fresh(result) and result.callable.func is call_funcs.forbidden_keys
         and same(result.callable.args, tuple(keys)) and same(result.callable.kwargs, dict({})),
     serves=["C09", "C11", "C14"],
+    inline_at_calls=True,
 )
 
 
@@ -341,6 +373,7 @@ contract(
         type(result) is cls and is_fresh(result) and result.callable.func is call_funcs.equal_to
         and Binds(result.callable.func, result.callable.args, result.callable.kwargs),
     serves=["C01", "C07"],
+    inline_at_calls=True,
 )
 
 contract(
@@ -351,6 +384,7 @@ contract(
         type(result) is cls and is_fresh(result) and result.callable.func is call_funcs.not_equal_to
         and Binds(result.callable.func, result.callable.args, result.callable.kwargs),
     serves=["C01", "C07"],
+    inline_at_calls=True,
 )
 
 contract(
@@ -361,6 +395,7 @@ contract(
         type(result) is cls and is_fresh(result) and result.callable.func is call_funcs.less_than
         and Binds(result.callable.func, result.callable.args, result.callable.kwargs),
     serves=["C01", "C07"],
+    inline_at_calls=True,
 )
 
 contract(
@@ -371,6 +406,7 @@ contract(
         type(result) is cls and is_fresh(result) and result.callable.func is call_funcs.greater_than
         and Binds(result.callable.func, result.callable.args, result.callable.kwargs),
     serves=["C01", "C07"],
+    inline_at_calls=True,
 )
 
 contract(
@@ -381,6 +417,7 @@ contract(
         type(result) is cls and is_fresh(result) and result.callable.func is call_funcs.less_than_or_equal_to
         and Binds(result.callable.func, result.callable.args, result.callable.kwargs),
     serves=["C01", "C07"],
+    inline_at_calls=True,
 )
 
 contract(
@@ -391,6 +428,7 @@ contract(
         type(result) is cls and is_fresh(result) and result.callable.func is call_funcs.greater_than_or_equal_to
         and Binds(result.callable.func, result.callable.args, result.callable.kwargs),
     serves=["C01", "C07"],
+    inline_at_calls=True,
 )
 
 contract(
@@ -401,6 +439,7 @@ contract(
         type(result) is cls and is_fresh(result) and result.callable.func is call_funcs.in_
         and Binds(result.callable.func, result.callable.args, result.callable.kwargs),
     serves=["C01", "C07"],
+    inline_at_calls=True,
 )
 
 contract(
@@ -411,6 +450,7 @@ contract(
         type(result) is cls and is_fresh(result) and result.callable.func is call_funcs.not_in
         and Binds(result.callable.func, result.callable.args, result.callable.kwargs),
     serves=["C01", "C07"],
+    inline_at_calls=True,
 )
 
 contract(
@@ -421,6 +461,7 @@ contract(
         type(result) is cls and is_fresh(result) and result.callable.func is call_funcs.in_range
         and Binds(result.callable.func, result.callable.args, result.callable.kwargs),
     serves=["C01", "C07"],
+    inline_at_calls=True,
 )
 
 contract(
@@ -431,6 +472,7 @@ contract(
         type(result) is cls and is_fresh(result) and result.callable.func is call_funcs.not_in_range
         and Binds(result.callable.func, result.callable.args, result.callable.kwargs),
     serves=["C01", "C07"],
+    inline_at_calls=True,
 )
 
 contract(
@@ -441,6 +483,7 @@ contract(
         type(result) is cls and is_fresh(result) and result.callable.func is call_funcs.equal_to_approx
         and Binds(result.callable.func, result.callable.args, result.callable.kwargs),
     serves=["C01", "C07"],
+    inline_at_calls=True,
 )
 
 contract(
@@ -451,6 +494,7 @@ contract(
         type(result) is cls and is_fresh(result) and result.callable.func is call_funcs.factor_of
         and Binds(result.callable.func, result.callable.args, result.callable.kwargs),
     serves=["C01", "C07"],
+    inline_at_calls=True,
 )
 
 contract(
@@ -461,6 +505,7 @@ contract(
         type(result) is cls and is_fresh(result) and result.callable.func is call_funcs.has_factor
         and Binds(result.callable.func, result.callable.args, result.callable.kwargs),
     serves=["C01", "C07"],
+    inline_at_calls=True,
 )
 
 contract(
@@ -471,6 +516,7 @@ contract(
         type(result) is cls and is_fresh(result) and result.callable.func is call_funcs.truthy
         and Binds(result.callable.func, result.callable.args, result.callable.kwargs),
     serves=["C01", "C07"],
+    inline_at_calls=True,
 )
 
 contract(
@@ -481,6 +527,7 @@ contract(
         type(result) is cls and is_fresh(result) and result.callable.func is call_funcs.falsy
         and Binds(result.callable.func, result.callable.args, result.callable.kwargs),
     serves=["C01", "C07"],
+    inline_at_calls=True,
 )
 
 contract(
@@ -491,6 +538,7 @@ contract(
         type(result) is cls and is_fresh(result) and result.callable.func is call_funcs.null
         and Binds(result.callable.func, result.callable.args, result.callable.kwargs),
     serves=["C01", "C07"],
+    inline_at_calls=True,
 )
 
 contract(
@@ -501,6 +549,7 @@ contract(
         type(result) is cls and is_fresh(result) and result.callable.func is call_funcs.is_instance
         and Binds(result.callable.func, result.callable.args, result.callable.kwargs),
     serves=["C01", "C07"],
+    inline_at_calls=True,
 )
 
 contract(
@@ -511,6 +560,7 @@ contract(
         type(result) is cls and is_fresh(result) and result.callable.func is call_funcs.keys_contain
         and Binds(result.callable.func, result.callable.args, result.callable.kwargs),
     serves=["C01", "C07"],
+    inline_at_calls=True,
 )
 
 contract(
@@ -521,6 +571,7 @@ contract(
         type(result) is cls and is_fresh(result) and result.callable.func is call_funcs.keys_contain_any_of
         and Binds(result.callable.func, result.callable.args, result.callable.kwargs),
     serves=["C01", "C07"],
+    inline_at_calls=True,
 )
 
 contract(
@@ -531,6 +582,7 @@ contract(
         type(result) is cls and is_fresh(result) and result.callable.func is call_funcs.keys_contain_all_of
         and Binds(result.callable.func, result.callable.args, result.callable.kwargs),
     serves=["C01", "C07"],
+    inline_at_calls=True,
 )
 
 contract(
@@ -541,6 +593,7 @@ contract(
         type(result) is cls and is_fresh(result) and result.callable.func is call_funcs.keys_contain_N_of
         and Binds(result.callable.func, result.callable.args, result.callable.kwargs),
     serves=["C01", "C07"],
+    inline_at_calls=True,
 )
 
 contract(
@@ -551,6 +604,7 @@ contract(
         type(result) is cls and is_fresh(result) and result.callable.func is call_funcs.keys_contain_at_least_N_of
         and Binds(result.callable.func, result.callable.args, result.callable.kwargs),
     serves=["C01", "C07"],
+    inline_at_calls=True,
 )
 
 contract(
@@ -561,6 +615,7 @@ contract(
         type(result) is cls and is_fresh(result) and result.callable.func is call_funcs.keys_contain_at_most_N_of
         and Binds(result.callable.func, result.callable.args, result.callable.kwargs),
     serves=["C01", "C07"],
+    inline_at_calls=True,
 )
 
 contract(
@@ -571,6 +626,7 @@ contract(
         type(result) is cls and is_fresh(result) and result.callable.func is call_funcs.keys_contain_one_of
         and Binds(result.callable.func, result.callable.args, result.callable.kwargs),
     serves=["C01", "C07"],
+    inline_at_calls=True,
 )
 
 contract(
@@ -581,6 +637,7 @@ contract(
         type(result) is cls and is_fresh(result) and result.callable.func is call_funcs.keys_contain_at_least_one_of
         and Binds(result.callable.func, result.callable.args, result.callable.kwargs),
     serves=["C01", "C07"],
+    inline_at_calls=True,
 )
 
 contract(
@@ -591,6 +648,7 @@ contract(
         type(result) is cls and is_fresh(result) and result.callable.func is call_funcs.keys_contain_at_most_one_of
         and Binds(result.callable.func, result.callable.args, result.callable.kwargs),
     serves=["C01", "C07"],
+    inline_at_calls=True,
 )
 
 contract(
@@ -601,6 +659,7 @@ contract(
         type(result) is cls and is_fresh(result) and result.callable.func is call_funcs.keys_equal_to
         and Binds(result.callable.func, result.callable.args, result.callable.kwargs),
     serves=["C01", "C07"],
+    inline_at_calls=True,
 )
 
 contract(
@@ -611,6 +670,7 @@ contract(
         type(result) is cls and is_fresh(result) and result.callable.func is call_funcs.keys_is_instance
         and Binds(result.callable.func, result.callable.args, result.callable.kwargs),
     serves=["C01", "C07"],
+    inline_at_calls=True,
 )
 
 contract(
@@ -621,6 +681,7 @@ contract(
         type(result) is cls and is_fresh(result) and result.callable.func is call_funcs.items_contain
         and Binds(result.callable.func, result.callable.args, result.callable.kwargs),
     serves=["C01", "C07"],
+    inline_at_calls=True,
 )
 
 contract(
@@ -631,6 +692,7 @@ contract(
         type(result) is cls and is_fresh(result) and result.callable.func is call_funcs.allowed_keys
         and Binds(result.callable.func, result.callable.args, result.callable.kwargs),
     serves=["C01", "C07"],
+    inline_at_calls=True,
 )
 
 contract(
@@ -641,6 +703,7 @@ contract(
         type(result) is cls and is_fresh(result) and result.callable.func is call_funcs.required_keys
         and Binds(result.callable.func, result.callable.args, result.callable.kwargs),
     serves=["C01", "C07"],
+    inline_at_calls=True,
 )
 
 contract(
@@ -651,4 +714,5 @@ contract(
         type(result) is cls and is_fresh(result) and result.callable.func is call_funcs.forbidden_keys
         and Binds(result.callable.func, result.callable.args, result.callable.kwargs),
     serves=["C01", "C07"],
+    inline_at_calls=True,
 )
